@@ -176,6 +176,31 @@ def run(chk: Check):
                     chk.violation(f"propagate:{label}:n_batch", f"{label} N={N}: n_batch={nb} changes {bad}", {"label": label, "n_batch": nb})
     # ------------------------------------------------------------------ C. restricted vs unrestricted trajectories
     S = proxies.sampler_proxy()
+    # C0. sampler level, including Cholesky matrices that are NOT symmetric (the two propagators must still build the
+    # same one-body propagator and follow the same trajectory)
+    for sym in (True, False):
+        outs = {}
+        for wt in ("rhf", "uhf"):
+            sysd = runlevel.make_system(np.random.default_rng(41 + chk.seed), norb=4, nelec=(2, 2), nchol=3, trial_kind=wt,
+                                        walker_type=wt, n_walkers=4, dt=0.03, vscale=0.4)
+            if not sym:
+                g = np.random.default_rng(43 + chk.seed).normal(size=(3, 4, 4)) * 0.3
+                sysd["ham_data"]["chol"] = jnp.array(g.reshape(3, -1))
+            pd0 = runlevel.init_prop_data(sysd, 77)
+            smp = S(n_prop_steps=3, n_ene_blocks=2, n_sr_blocks=2, n_blocks=1)
+            o = runlevel.call_entry(sysd, smp, {"ad_mode": None, "orbital_rotation": True, "do_sr": True}, pd0)
+            eh = np.asarray(sysd["ham_data_built"]["exp_h1"])
+            outs[wt] = (o["energy"], np.asarray(o["prop_data"]["weights"]), eh if wt == "rhf" else eh[0])
+        chk.case(("sampler-trajectory", sym))
+        chk.traces += 2
+        de = abs(outs["rhf"][0] - outs["uhf"][0])
+        dw = float(np.max(np.abs(outs["rhf"][1] - outs["uhf"][1])))
+        dh = float(np.max(np.abs(outs["rhf"][2] - outs["uhf"][2])))
+        if de > 1e-9 * max(1, abs(outs["uhf"][0])) or dw > 1e-9 or dh > 1e-12:
+            chk.violation("trajectory:sampler:restricted-vs-unrestricted" + ("" if sym else ":nonsymmetric-chol"),
+                          f"closed-shell problem ({'symmetric' if sym else 'non-symmetric'} Cholesky matrices): restricted and unrestricted "
+                          f"sampler runs differ: energies {outs['rhf'][0]} vs {outs['uhf'][0]}, max weight difference {dw}, exp_h1 "
+                          f"difference {dh}", {"symmetric_chol": sym})
     combos = [({}, (2, 2, 1)), (dict(ad_mode="forward"), (2, 1, 2))] if not big else \
         [({}, (2, 2, 2)), (dict(ad_mode="forward"), (2, 1, 2)), (dict(ad_mode="reverse", orbital_rotation=False), (2, 2, 1)),
          (dict(ad_mode="forward", do_sr=False), (3, 2, 1))]
